@@ -51,10 +51,14 @@ pub struct TransferCase {
     /// 2 = last page has other content, 3 = one more page appended
     #[serde(default)]
     pub relation: u8,
+    /// the bus takes this many milliseconds of real time for call number k (a slow line, a busy sign): (k, ms)
+    #[serde(default)]
+    pub slow_call: Option<(usize, u16)>,
 }
 
 struct Recorder {
     own: u16,
+    slow_call: Option<(usize, u16)>,
     in_progress_at: Option<usize>,
     bus_error_at: Option<(usize, u8)>,
     errored: bool,
@@ -73,6 +77,11 @@ impl SignBus for Recorder {
         let m = M::from_message(&message);
         if self.log.len() > 300_000 {
             return Err("harness call cap".into());
+        }
+        if let Some((k, ms)) = self.slow_call {
+            if k == self.log.len() {
+                std::thread::sleep(std::time::Duration::from_millis(ms as u64));
+            }
         }
         if let Some((at, kind)) = self.bus_error_at {
             if at == self.log.len() && !self.errored {
@@ -192,7 +201,7 @@ fn run_op(sign: &Sign, c: &TransferCase, items: &[Vec<u8>]) -> Result<Result<(),
 
 pub fn check_transfer(c: &TransferCase, st: &mut Stats) -> Result<(), String> {
     let (sign_type, _, _, _, _) = TYPES[c.sign_type as usize % 11];
-    let rec = Rc::new(RefCell::new(Recorder { own: c.addr, in_progress_at: c.in_progress_at, bus_error_at: c.bus_error_at, errored: false, hello_state: c.if_needed_hello, hellos: 0, bad_ack: c.bad_ack, transfer_requests: 0, verdicts: c.verdicts.clone(), attempt: 0, log: vec![], last_transfer_op: 0 }));
+    let rec = Rc::new(RefCell::new(Recorder { own: c.addr, slow_call: c.slow_call, in_progress_at: c.in_progress_at, bus_error_at: c.bus_error_at, errored: false, hello_state: c.if_needed_hello, hellos: 0, bad_ack: c.bad_ack, transfer_requests: 0, verdicts: c.verdicts.clone(), attempt: 0, log: vec![], last_transfer_op: 0 }));
     let sign = Sign::new(rec.clone(), Address(c.addr), sign_type);
     let items = items_of(c);
     let total_chunks: usize = items.iter().map(|i| (i.len() + 15) / 16).sum();
@@ -220,7 +229,7 @@ pub fn check_transfer_seq(c: &TransferSeq, st: &mut Stats) -> Result<(), String>
     let first = &c.ops[0];
     let (sign_type, _, _, _, _) = TYPES[first.sign_type as usize % 11];
     let verdicts: Vec<bool> = c.ops.iter().flat_map(|o| o.verdicts.iter().copied()).collect();
-    let rec = Rc::new(RefCell::new(Recorder { own: first.addr, in_progress_at: None, bus_error_at: None, errored: false, hello_state: None, hellos: 0, bad_ack: None, transfer_requests: 0, verdicts, attempt: 0, log: vec![], last_transfer_op: 0 }));
+    let rec = Rc::new(RefCell::new(Recorder { own: first.addr, slow_call: None, in_progress_at: None, bus_error_at: None, errored: false, hello_state: None, hellos: 0, bad_ack: None, transfer_requests: 0, verdicts, attempt: 0, log: vec![], last_transfer_op: 0 }));
     let sign = Sign::new(rec.clone(), Address(first.addr), sign_type);
     for (k, op) in c.ops.iter().enumerate() {
         // every operation uses the first one's address and sign type (it is the same Sign object)
@@ -457,10 +466,26 @@ fn case_strategy(max_pages: usize, big: bool) -> impl Strategy<Value = TransferC
         prop_oneof![5 => Just(None), 1 => (0usize..40, 0u8..4).prop_map(Some)],
         prop_oneof![7 => Just(None), 1 => (0usize..3).prop_map(Some)],
     )
-        .prop_map(|(addr, sign_type, pages, seed, verdicts, bad_ack, dup_pages, bus_error_at, in_progress_at)| TransferCase { addr, sign_type, pages, seed, verdicts, bad_ack, if_needed_hello: None, dup_pages, bus_error_at, in_progress_at, relation: 0 })
+        .prop_map(|(addr, sign_type, pages, seed, verdicts, bad_ack, dup_pages, bus_error_at, in_progress_at)| TransferCase { addr, sign_type, pages, seed, verdicts, bad_ack, if_needed_hello: None, dup_pages, bus_error_at, in_progress_at, relation: 0, slow_call: None })
 }
 
 pub fn run(ctx: &Ctx) {
+    // transfers on a bus where one exchange takes seconds of real time (they sleep, they do not compute: started here,
+    // collected at the end)
+    let slow_cases: Vec<TransferCase> = [(8usize, 1300u16), (3, 1300), (14, 2200), (1, 1100)]
+        .into_iter()
+        .take(ctx.tier.pick(2, 4))
+        .enumerate()
+        .map(|(i, (k, ms))| TransferCase { addr: 0x0044, sign_type: 5, pages: if i == 3 { None } else { Some(vec![6, 6]) }, seed: 31 + i as u64, verdicts: vec![true], bad_ack: None, if_needed_hello: None, dup_pages: false, bus_error_at: None, in_progress_at: None, relation: 0, slow_call: Some((k, ms)) })
+        .collect();
+    let slow_enabled = ctx.part_enabled("slow-bus");
+    let slow_handles: Vec<_> = slow_cases
+        .iter()
+        .cloned()
+        .filter(|_| slow_enabled)
+        .map(|c| std::thread::spawn(move || { let r = check_transfer(&c, &mut Stats::new()); (c, r) }))
+        .collect();
+
     // systematic: configure for every type x every verdict pattern; the sign's own page size x 0..3 pages
     let verdicts: Vec<Vec<bool>> = vec![vec![true], vec![false, true], vec![false, false, true], vec![false, false, false]];
     par_range(ctx, "all-types", 11, |t, st| {
@@ -468,10 +493,10 @@ pub fn run(ctx: &Ctx) {
         let own_chunks = (crate::oracle::page::total_len(w, h) / 16) as u16;
         for (vi, v) in verdicts.iter().enumerate() {
             for addr in [0u16, 3, 0xFFFF] {
-                let c = TransferCase { addr, sign_type: t as u8, pages: None, seed: 0, verdicts: v.clone(), bad_ack: None, if_needed_hello: None, dup_pages: false, bus_error_at: None, in_progress_at: None, relation: 0 };
+                let c = TransferCase { addr, sign_type: t as u8, pages: None, seed: 0, verdicts: v.clone(), bad_ack: None, if_needed_hello: None, dup_pages: false, bus_error_at: None, in_progress_at: None, relation: 0, slow_call: None };
                 check_transfer(&c, st).map_err(|m| (serde_json::to_value(&c).unwrap(), m))?;
                 for n in 0..=3usize {
-                    let c = TransferCase { addr, sign_type: t as u8, pages: Some(vec![own_chunks; n]), seed: (t * 10 + vi as u64) as u64, verdicts: v.clone(), bad_ack: None, if_needed_hello: None, dup_pages: false, bus_error_at: None, in_progress_at: None, relation: 0 };
+                    let c = TransferCase { addr, sign_type: t as u8, pages: Some(vec![own_chunks; n]), seed: (t * 10 + vi as u64) as u64, verdicts: v.clone(), bad_ack: None, if_needed_hello: None, dup_pages: false, bus_error_at: None, in_progress_at: None, relation: 0, slow_call: None };
                     check_transfer(&c, st).map_err(|m| (serde_json::to_value(&c).unwrap(), m))?;
                     // the same transfer with the request of attempt 0 / 1 / 2 not acknowledged, in each of the four ways
                     let c = TransferCase { bad_ack: Some((vi % 3, (n + vi) as u8)), ..c };
@@ -482,17 +507,17 @@ pub fn run(ctx: &Ctx) {
         Ok(())
     });
     par_range(ctx, "configure-if-needed-hello-states", 11 * 13, |i, st| {
-        let c = TransferCase { addr: 0x0203, sign_type: (i % 11) as u8, pages: None, seed: 0, verdicts: vec![i % 3 != 0, true], bad_ack: None, if_needed_hello: Some((i / 11) as u8), dup_pages: false, bus_error_at: None, in_progress_at: None, relation: 0 };
+        let c = TransferCase { addr: 0x0203, sign_type: (i % 11) as u8, pages: None, seed: 0, verdicts: vec![i % 3 != 0, true], bad_ack: None, if_needed_hello: Some((i / 11) as u8), dup_pages: false, bus_error_at: None, in_progress_at: None, relation: 0, slow_call: None };
         check_transfer(&c, st).map_err(|m| (serde_json::to_value(&c).unwrap(), m))
     });
     ctx.part_done("configure-if-needed-hello-states", true, json!("configure_if_needed for 11 types x the 13 states the sign may report to the opening hello"));
     par_range(ctx, "identical-pages-and-bus-failures", 64, |i, st| {
         // the same page two / three times in a row (same id, same bytes)
-        let c = TransferCase { addr: 3, sign_type: (i % 11) as u8, pages: Some(vec![3; 2 + (i % 2) as usize]), seed: i, verdicts: vec![i % 3 != 0, true], bad_ack: None, if_needed_hello: None, dup_pages: true, bus_error_at: None, in_progress_at: None, relation: 0 };
+        let c = TransferCase { addr: 3, sign_type: (i % 11) as u8, pages: Some(vec![3; 2 + (i % 2) as usize]), seed: i, verdicts: vec![i % 3 != 0, true], bad_ack: None, if_needed_hello: None, dup_pages: true, bus_error_at: None, in_progress_at: None, relation: 0, slow_call: None };
         check_transfer(&c, st).map_err(|m| (serde_json::to_value(&c).unwrap(), m))?;
         // a bus failure of each kind at call index i of a two-page transfer
         for kind in 0..4u8 {
-            let c = TransferCase { addr: 0x0405, sign_type: 5, pages: Some(vec![3, 2]), seed: 9, verdicts: vec![false, true], bad_ack: None, if_needed_hello: None, dup_pages: false, bus_error_at: Some((i as usize % 24, kind)), in_progress_at: None, relation: 0 };
+            let c = TransferCase { addr: 0x0405, sign_type: 5, pages: Some(vec![3, 2]), seed: 9, verdicts: vec![false, true], bad_ack: None, if_needed_hello: None, dup_pages: false, bus_error_at: Some((i as usize % 24, kind)), in_progress_at: None, relation: 0, slow_call: None };
             check_transfer(&c, st).map_err(|m| (serde_json::to_value(&c).unwrap(), m))?;
         }
         Ok(())
@@ -508,7 +533,7 @@ pub fn run(ctx: &Ctx) {
             2 => vec![1, 4096, 2],
             _ => vec![4095, 4096],
         };
-        let c = TransferCase { addr: 0x0102, sign_type: 5, pages: Some(pages), seed: k, verdicts: vec![k % 2 == 0, true], bad_ack: None, if_needed_hello: None, dup_pages: false, bus_error_at: None, in_progress_at: None, relation: 0 };
+        let c = TransferCase { addr: 0x0102, sign_type: 5, pages: Some(pages), seed: k, verdicts: vec![k % 2 == 0, true], bad_ack: None, if_needed_hello: None, dup_pages: false, bus_error_at: None, in_progress_at: None, relation: 0, slow_call: None };
         check_transfer(&c, st).map_err(|m| (serde_json::to_value(&c).unwrap(), m))
     });
     ctx.part_done("offset-limit", true, json!("pages of 4096 chunks (last offset 65520), alone and next to small pages"));
@@ -517,7 +542,7 @@ pub fn run(ctx: &Ctx) {
     let long_lists: Vec<(usize, u16)> = vec![(255, 1), (256, 1), (257, 1), (300, 3), (513, 2), (1000, 1), (256, 6), (2000, 2)];
     par_range(ctx, "long-page-lists", long_lists.len() as u64 * 2, |k, st| {
         let (n, chunks) = long_lists[(k / 2) as usize];
-        let c = TransferCase { addr: 0x0011, sign_type: (k % 11) as u8, pages: Some(vec![chunks; n]), seed: 77 + k, verdicts: if k % 2 == 0 { vec![true] } else { vec![false, true] }, bad_ack: None, if_needed_hello: None, dup_pages: false, bus_error_at: None, in_progress_at: None, relation: 0 };
+        let c = TransferCase { addr: 0x0011, sign_type: (k % 11) as u8, pages: Some(vec![chunks; n]), seed: 77 + k, verdicts: if k % 2 == 0 { vec![true] } else { vec![false, true] }, bad_ack: None, if_needed_hello: None, dup_pages: false, bus_error_at: None, in_progress_at: None, relation: 0, slow_call: None };
         check_transfer(&c, st).map_err(|m| (serde_json::to_value(&c).unwrap(), m))?;
         st.nontrivial_enumerated(1);
         Ok(())
@@ -526,7 +551,7 @@ pub fn run(ctx: &Ctx) {
     // two-page transfer, then configure / the same pages again / other pages
     par_range(ctx, "aborted-then-next-on-one-sign", 30 * 3, |i, st| {
         let at = (i / 3) as usize;
-        let first = TransferCase { addr: 0x0021, sign_type: 2, pages: Some(vec![3, 2]), seed: 5, verdicts: vec![true], bad_ack: None, if_needed_hello: None, dup_pages: false, bus_error_at: Some((at, (i % 4) as u8)), in_progress_at: None, relation: 0 };
+        let first = TransferCase { addr: 0x0021, sign_type: 2, pages: Some(vec![3, 2]), seed: 5, verdicts: vec![true], bad_ack: None, if_needed_hello: None, dup_pages: false, bus_error_at: Some((at, (i % 4) as u8)), in_progress_at: None, relation: 0, slow_call: None };
         let second = match i % 3 {
             0 => TransferCase { pages: None, bus_error_at: None, ..first.clone() },
             1 => TransferCase { bus_error_at: None, ..first.clone() },
@@ -569,6 +594,24 @@ pub fn run(ctx: &Ctx) {
     crate::engine::with_logging(|| {
         run_generated(ctx, "generated+logging", ctx.tier.pick(20_000, 300_000), || case_strategy(4, false), |c, st| check_transfer(c, st));
     });
+    if !slow_handles.is_empty() {
+        let mut st = Stats::new();
+        for h in slow_handles {
+            match h.join() {
+                Ok((c, r)) => {
+                    st.eval();
+                    st.nontrivial(h64(&c));
+                    st.class("slow-bus:one-exchange-takes-seconds");
+                    if let Err(m) = r {
+                        ctx.fail("slow-bus", serde_json::to_value(&c).unwrap(), format!("on a bus where call {} takes {} ms: {m}", c.slow_call.unwrap().0, c.slow_call.unwrap().1));
+                    }
+                }
+                Err(_) => ctx.inconclusive("a slow-bus worker thread died".into()),
+            }
+        }
+        ctx.merge("slow-bus", st);
+        ctx.part_done("slow-bus", true, json!({"cases": slow_cases.len(), "what": "two-page transfers and a configuration on a recording bus where one exchange takes 1.1-2.2 s of real time; the transcript is judged like any other"}));
+    }
     run_generated(ctx, "generated-large-pages", ctx.tier.pick(2_000, 40_000), || case_strategy(4, true), |c, st| check_transfer(c, st));
 }
 
